@@ -2,6 +2,7 @@ import CallbagModel.Sem
 import CallbagModel.Ops.Relay
 import CallbagModel.Ops.Compose
 import CallbagModel.Inv.Ghost
+import CallbagModel.Inv.Relay
 /-!
 # Fusion: a pipeline of two relays is, at its boundary, ONE relay with the fused transfer function
 -/
@@ -218,9 +219,148 @@ theorem sim_step (k₁ : Relay.Kind σ₁ α β) (k₂ : Relay.Kind σ₂ β γ)
       all_goals
         run 4 2
         refine Sim.mk' (.cons (by simp [DoneFr]) hstk) rfl ?_
-        trace_state
-        sorry
-    | srcDown j d => sorry
-  | @ret st stk g tr o l hl => sorry
+        intro _
+        simp [SlotsOK, *]
+    | srcDown j d =>
+      have hlive : AnyLive g'.ph := by
+        simp only [legalIn, Bool.and_eq_true, beq_iff_eq] at hl; exact Or.inr ⟨j, hl.1⟩
+      obtain ⟨hs1, hs2, hs'⟩ := hslots hlive
+      simp only at hs1 hs2
+      cases d with
+      | data a =>
+        cases hx1 : (k₁.xfer p1 a).2 with
+        | none =>
+          have hk1 : k₁.slotted = true := by
+            cases hk : k₁.slotted with
+            | true => rfl
+            | false => exact absurd hx1 (h₁ hk _ _)
+          have hs1t := hs1 hk1
+          have hs't := hs' (by simp [hk1])
+          run 2 2
+          refine Sim.mk' (.cons (by simp [DoneFr]) hstk) rfl ?_
+          intro _
+          simp_all [SlotsOK]
+        | some b =>
+          cases hx2 : (k₂.xfer p2 b).2 with
+          | none =>
+            have hk2 : k₂.slotted = true := by
+              cases hk : k₂.slotted with
+              | true => rfl
+              | false => exact absurd hx2 (h₂ hk _ _)
+            have hs2t := hs2 hk2
+            have hs't := hs' (by simp [hk2])
+            cases hk1 : k₁.slotted <;> simp [hk1] at hs1
+            all_goals
+              run 5 2
+              refine Sim.mk' (.cons (by simp [DoneFr]) hstk) rfl ?_
+              intro _
+              simp_all [SlotsOK]
+          | some c' =>
+            run 4 2
+            refine Sim.mk' (.cons (by simp [DoneFr]) hstk) rfl ?_
+            exact fun _ => ⟨hs1, hs2, hs'⟩
+      | term =>
+        run 2 1
+        refine Sim.mk' (.cons (by simp [DoneFr]) hstk) rfl ?_
+        exact fun _ => ⟨hs1, hs2, hs'⟩
+      | err e =>
+        run 2 1
+        refine Sim.mk' (.cons (by simp [DoneFr]) hstk) rfl ?_
+        exact fun _ => ⟨hs1, hs2, hs'⟩
+  | @ret st stk g tr o l hl =>
+    obtain ⟨hg, htr, _, hp', hpriv, hstk, hslots⟩ := hs
+    simp only at hg htr hp' hpriv hstk hslots
+    subst hg htr hp' hpriv
+    cases hstk with
+    | @cons _ _ _ r' hd hr =>
+      refine ⟨_, EnvStep.ret hl, ?_⟩
+      obtain ⟨n, hn⟩ := ret_dones k₁ k₂ l hd st stk g' (.retE :: tr')
+      refine ⟨n, 1, ?_⟩
+      rw [hn]
+      simp [advance, opStep, machine, step, hr.length]
+      refine Sim.mk' hr rfl ?_
+      intro hl'
+      simp only [onRetO_ph] at hl'
+      exact hslots hl'
+
+theorem sReach_advance {St Loc α β : Type} (M : Machine St Loc α β) (n : Nat) (s : Sys St Loc α β) (h : SReach M s) :
+    SReach M (advance M n s) := by
+  induction n generalizing s with
+  | zero => exact h
+  | succ n ih =>
+    simp only [advance]
+    cases ho : opStep M s with
+    | none => exact h
+    | some s' => exact ih s' (.step h (.op ho))
+
+/-- the invariant of the composite at its environment turns: it is simulated by a reachable configuration of the fused relay -/
+def Inv (k₁ : Relay.Kind σ₁ α β) (k₂ : Relay.Kind σ₂ β γ) (s : Sys (St σ₁ × St σ₂) (CLoc α β γ) α γ) : Prop :=
+  ∃ s', SReach (machine (fuse k₁ k₂)) s' ∧ Sim k₁ k₂ s s'
+
+theorem inv_init (k₁ : Relay.Kind σ₁ α β) (k₂ : Relay.Kind σ₂ β γ) : Inv k₁ k₂ (Sys.init (comp k₁ k₂)) :=
+  ⟨Sys.init (machine (fuse k₁ k₂)), .init, ⟨rfl, rfl, rfl, rfl, rfl, .nil, by
+    rintro (⟨k, hk⟩ | ⟨i, hi⟩)
+    · simp [Sys.init] at hk
+    · simp [Sys.init] at hi⟩⟩
+
+theorem inv_step (k₁ : Relay.Kind σ₁ α β) (k₂ : Relay.Kind σ₂ β γ)
+    (h₁ : k₁.slotted = false → ∀ s a, (k₁.xfer s a).2 ≠ none) (h₂ : k₂.slotted = false → ∀ s b, (k₂.xfer s b).2 ≠ none)
+    (s t : Sys (St σ₁ × St σ₂) (CLoc α β γ) α γ) (m : Move α) (h : Inv k₁ k₂ s) (he : EnvStep (comp k₁ k₂) m s t) :
+    ∃ n, Inv k₁ k₂ (advance (comp k₁ k₂) n t) := by
+  obtain ⟨s', hr, hsim⟩ := h
+  obtain ⟨t', he', n, n', hsim'⟩ := sim_step k₁ k₂ h₁ h₂ s t s' m hsim he
+  exact ⟨n, _, sReach_advance _ n' t' (.step hr (.env he' trivial)), hsim'⟩
+
+/-- every configuration of the two-stage pipeline in which the environment has control has the same boundary trace, the same ghost
+monitor state and the same panic flag as a reachable configuration of the fused relay -/
+theorem compose_relay_refines {σ₁ σ₂ α β γ : Type} (k₁ : Relay.Kind σ₁ α β) (k₂ : Relay.Kind σ₂ β γ)
+    (h₁ : k₁.slotted = false → ∀ s a, (k₁.xfer s a).2 ≠ none) (h₂ : k₂.slotted = false → ∀ s b, (k₂.xfer s b).2 ≠ none) :
+    ∀ s, SReach (compose (Relay.machine k₁) (Relay.machine k₂)) s → EnvTurn s →
+      ∃ s', SReach (Relay.machine (fuse k₁ k₂)) s' ∧ EnvTurn s' ∧ s'.tr = s.tr ∧ s'.g = s.g ∧ s'.panicked = s.panicked ∧
+        s'.st.priv = (s.st.1.priv, s.st.2.priv) := by
+  intro s hs ht
+  obtain ⟨n, hn⟩ := reach_runs_into_inv (comp k₁ k₂) anyEnv (Inv k₁ k₂) (inv_init k₁ k₂)
+    (fun s hi => by obtain ⟨s', _, hsim⟩ := hi; exact hsim.turn.1)
+    (fun s t m hi he _ => inv_step k₁ k₂ h₁ h₂ s t m hi he) s hs
+  rw [advance_of_envTurn ht] at hn
+  obtain ⟨s', hr, hsim⟩ := hn
+  exact ⟨s', hr, hsim.turn.2, hsim.tr, hsim.g, by rw [hsim.p, hsim.p'], hsim.priv⟩
+
+/-- consequence: the composite never panics and is never stuck in the middle of a macro-step — from every reachable configuration
+it runs into an environment turn -/
+theorem compose_relay_runs_to_turn (k₁ : Relay.Kind σ₁ α β) (k₂ : Relay.Kind σ₂ β γ)
+    (h₁ : k₁.slotted = false → ∀ s a, (k₁.xfer s a).2 ≠ none) (h₂ : k₂.slotted = false → ∀ s b, (k₂.xfer s b).2 ≠ none) :
+    ∀ s, SReach (comp k₁ k₂) s → ∃ n, EnvTurn (advance (comp k₁ k₂) n s) := by
+  intro s hs
+  obtain ⟨n, s', _, hsim⟩ := reach_runs_into_inv (comp k₁ k₂) anyEnv (Inv k₁ k₂) (inv_init k₁ k₂)
+    (fun s hi => by obtain ⟨s', _, hsim⟩ := hi; exact hsim.turn.1)
+    (fun s t m hi he _ => inv_step k₁ k₂ h₁ h₂ s t m hi he) s hs
+  exact ⟨n, hsim.turn.1⟩
+
+/-- the side condition of the single-relay theorems holds of the fused kind -/
+theorem fuse_side (k₁ : Relay.Kind σ₁ α β) (k₂ : Relay.Kind σ₂ β γ)
+    (h₁ : k₁.slotted = false → ∀ s a, (k₁.xfer s a).2 ≠ none) (h₂ : k₂.slotted = false → ∀ s b, (k₂.xfer s b).2 ≠ none) :
+    (fuse k₁ k₂).slotted = false → ∀ s a, ((fuse k₁ k₂).xfer s a).2 ≠ none := by
+  intro hf s a
+  simp only [fuse, Bool.or_eq_false_iff] at hf
+  simp only [fuse]
+  cases hx : (k₁.xfer s.1 a).2 with
+  | none => exact absurd hx (h₁ hf.1 _ _)
+  | some b => exact h₂ hf.2 _ _
+
+/-- transfer, worked once: phase-level safety (C01–C04 protocol part, C17) of the two-stage pipeline, at EVERY small-step reachable
+configuration, from `relay_basicSafe` of the fused relay -/
+theorem compose_relay_basicSafe (k₁ : Relay.Kind σ₁ α β) (k₂ : Relay.Kind σ₂ β γ)
+    (h₁ : k₁.slotted = false → ∀ s a, (k₁.xfer s a).2 ≠ none) (h₂ : k₂.slotted = false → ∀ s b, (k₂.xfer s b).2 ≠ none) :
+    ∀ s, SReach (comp k₁ k₂) s → BasicSafe s :=
+  basicSafe_of_macro_inv (comp k₁ k₂) (Inv k₁ k₂) (inv_init k₁ k₂)
+    (fun s hi => by
+      obtain ⟨s', hr, hsim⟩ := hi
+      have hb := relay_basicSafe (fuse k₁ k₂) (fuse_side k₁ k₂ h₁ h₂) s' hr
+      exact ⟨hsim.turn.1, by rw [← hsim.g]; exact hb.1, hsim.p⟩)
+    (fun s t m hi he => inv_step k₁ k₂ h₁ h₂ s t m hi he)
 
 end Cb.Fuse
+
+#print axioms Cb.Fuse.compose_relay_refines
+#print axioms Cb.Fuse.compose_relay_basicSafe
